@@ -157,13 +157,45 @@ def one(cases, lines, metas, rng, tier, ci):
     Ms = [rand_tt(rng, N, rand_ranks(rng, d, 2), tn.float64, M=N, lo=-1, hi=1) for _ in range(nM)]
     ops = {"nT": nT, "nM": nM}
     depth = rng.randint(1, 3) if tier != "quick" else rng.randint(1, 2)
-    e = gen_se(rng, depth, ops, N)
-    usedT = sorted({int(e.toks[i + 1]) for i, t in enumerate(e.toks) if t == "var"})
-    usedM = sorted({int(e.toks[i + 1]) for i, t in enumerate(e.toks) if t == "mv"})
+    # programs: operands scaled by a scalar *expression* (x * torchtt.dot(x, y), x.sum() * y, ...) are defined first, the head may use them
+    lets = []
+    if ci % 3 == 2:
+        for _ in range(rng.randint(1, 2)):
+            i = rng.randrange(ops["nT"])
+            s = gen_se(rng, rng.randint(0, 1), ops, N)
+            lets.append((i, s, rng.random() < 0.5))
+            ops = {"nT": ops["nT"] + 1, "nM": nM}
+    e0 = gen_se(rng, depth, ops, N)
+    if lets:
+        newest = ops["nT"] - 1
+        if newest not in {int(e0.toks[i + 1]) for i, t in enumerate(e0.toks) if t == "var"}:
+            # make sure the head uses the scaled operand
+            e1 = Node(["sumall", "var", newest], lambda env, j=newest: env["T"][j].sum(), lambda den, j=newest: den["T"][j].sum(), None)
+            e0 = Node(["sadd"] + e0.toks + e1.toks, lambda env, x=e0, y=e1: x.tt_fn(env) + y.tt_fn(env), lambda den, x=e0, y=e1: x.dn_fn(den) + y.dn_fn(den), None)
+
+    def prog_tt(env, lets=lets, e0=e0):
+        env = {"T": list(env["T"]), "M": env["M"]}
+        for (i, s, left) in lets:
+            sv = s.tt_fn(env)
+            env["T"].append(sv * env["T"][i] if left else env["T"][i] * sv)
+        return e0.tt_fn(env)
+
+    def prog_dn(den, lets=lets, e0=e0):
+        den = {"T": list(den["T"]), "M": den["M"]}
+        for (i, s, left) in lets:
+            den["T"].append(den["T"][i] * s.dn_fn(den))
+        return e0.dn_fn(den)
+    ltoks = []
+    for (i, s, left) in lets:
+        ltoks += [i] + s.toks
+    e = Node(([len(lets)] + ltoks if lets else []) + e0.toks, prog_tt, prog_dn, None)
+    alltoks = ltoks + e0.toks
+    usedT = sorted({int(alltoks[i + 1]) for i, t in enumerate(alltoks) if t == "var" and int(alltoks[i + 1]) < nT} | {i for (i, _, _) in lets if i < nT})
+    usedM = sorted({int(alltoks[i + 1]) for i, t in enumerate(alltoks) if t == "mv"})
     kind = "M" if (usedM and rng.random() < 0.4) else "T"
     oi = rng.choice(usedM if kind == "M" else usedT)
     ci_core = rng.randrange(d)
-    line = J("ad", nT, [tt_tokens(t) for t in Ts], nM, [tt_tokens(m) for m in Ms], kind, oi, ci_core, e.toks)
+    line = J("adp" if lets else "ad", nT, [tt_tokens(t) for t in Ts], nM, [tt_tokens(m) for m in Ms], kind, oi, ci_core, e.toks)
     box = {}
 
     def impl():
@@ -223,7 +255,7 @@ def one(cases, lines, metas, rng, tier, ci):
             return "gradient differs from the dense derivative: " + e2
         box["nonzero"] = bool((gd != 0).any())
         return None
-    head = e.toks[0]
+    head = e0.toks[0] + ("/let%d" % len(lets) if lets else "")
     cases.append(Case(None, impl, oracle, "ad/%s/depth%d/%s-core%d/d%d" % (head, depth, kind, ci_core, d), True, desc=line[:400]))
     lines.append(line)
     metas.append((cases[-1], box))
